@@ -82,6 +82,8 @@ def check_contraction(init, etr_tab, ex, findings, with_l=True):
 
 
 def run(repo, R):
+    from .momfam import compose_state_rules as _csr
+    _csr(R, repo, ['gbasis/integrals/electron_repulsion.py', 'gbasis/integrals/_two_elec_int.py', 'gbasis/integrals/point_charge.py', 'gbasis/contractions.py', 'gbasis/spherical.py', 'gbasis/utils.py', 'gbasis/base.py', 'gbasis/base_one.py', 'gbasis/base_two_symm.py', 'gbasis/base_two_asymm.py', 'gbasis/base_four_symm.py'], "the property holds for every call, also after a shell's parameters were changed through its setters")
     R.rule("PITFALL", "no result buffer typed after an input, no real cast of a transformation, no unbuffered accumulation / first-occurrence scatter through np.unique")
     from ..pitfalls import report as _pitfalls
     _pitfalls(repo, R, ['gbasis.integrals.electron_repulsion', 'gbasis.integrals._two_elec_int'])
